@@ -702,4 +702,31 @@ theorem packetFreeH_spec (h : Heap) (p : Nat) (ents : List Nat) (sa : Bool) (es 
   obtain ⟨h2, hf2, c2⟩ := Cleared.free h1 p _ hp1
   exact ⟨h2, by simp [packetFreeH, read, hp, hfe, hf2], c1.trans c2⟩
 
+
+/-! ### (re)initialisers -/
+
+/-- **every (re)initialising function releases the previous content** (heap level): the object keeps its address, the blocks
+    it owned are released exactly once, the new value's components are fresh, nothing else is touched -/
+theorem reinitH_spec (h : Heap) (hw : h.WF) (t : Nat) (old : HVal) (vOld : V) (F : List Nat) (x : V)
+    (ht : h.cell t = some (.val old)) (hr : Rep h old vOld F) (hF : ∀ a, a ∈ F → a < h.next) (htlt : t < h.next) (htF : t ∉ F) :
+    ∃ h' new F', reinitH (need vOld) h t x = some h' ∧ h'.cell t = some (.val new) ∧ Rep h' new x F' ∧ h'.WF
+      ∧ (∀ a, a ∈ F' ↔ (h.next ≤ a ∧ a < h'.next))
+      ∧ (∀ a, a < h.next → a ≠ t → h'.cell a = if a ∈ F then none else h.cell a) := by
+  obtain ⟨h1, new, h2, Fn, hc, hb, hrepn, hw2, hle, hrange, hcover, hcells⟩ :=
+    cleanBuild_spec h hw old vOld F x hr hF (need vOld) (Nat.le_refl _)
+  have ht2 : h2.cell t = some (.val old) := by rw [hcells t htlt]; simp [htF, ht]
+  obtain ⟨h3, hwr, hn3, hc3⟩ := write_spec h2 t _ (.val new) ht2
+  refine ⟨h3, new, Fn, by simp [reinitH, read, ht, hc, hb, hwr], by simp [hc3], ?_, ?_, ?_, ?_⟩
+  · apply Rep_congr h2 h3 x new Fn _ hrepn
+    intro a ha
+    have : a ≠ t := by have := (hrange a ha).1; omega
+    rw [hc3]; simp [this]
+  · intro a ha; rw [hn3] at ha; rw [hc3]
+    have : a ≠ t := by omega
+    simp [this, hw2 a ha]
+  · intro a; rw [hn3]
+    exact ⟨fun ha => hrange a ha, fun ha => hcover a ha.1 ha.2⟩
+  · intro a ha hne
+    rw [hc3]; simp only [hne, if_false]; exact hcells a ha
+
 end CifModel.Model.Heap
